@@ -147,8 +147,20 @@ NextInit == \E n \in 1..3 : st = InitSt(SmallNextCase(n))
 NextView == [st EXCEPT !.log = Len(st.log), !.samples = Len(st.samples)]
 NextBigInit == \E rows \in {1, 2, 3, 5}, shots \in {7, 12} : st = InitSt(NextCase(rows, shots))
 
-InitQuick == FlowInit(0) \/ RingInit \/ IterInit \/ NextBigInit
-InitThorough == FlowInit(1) \/ RingInit \/ IterInit \/ NextBigInit
+\* FIRST-access contention (M1): 8 instances, one shot each; in front of every step's real preprocessor the harness puts a
+\* spin barrier (through the gun's pluggable Preprocessor interface), so the 8 instances make the FIRST [next] look-up of
+\* the path users (step a) resp. items (step b) on a fresh iterator at the same instant.  Replayed many times per run.
+FirstCase(rows) ==
+    [id |-> 9400000 + rows, fam |-> "first",
+     reqs |-> [a |-> RDef(PreM("next", "users"), Use("pre", "a", "uri"), "none", FALSE),
+               b |-> RDef(PreM("next", "items"), Use("pre", "b", "hdr"), "none", FALSE),
+               c |-> RDef(NoPre, NoUse, "none", FALSE)],
+     scens |-> << [name |-> "s1", weight |-> 1, items |-> <<ReqItem("a", 1, 0), ReqItem("b", 1, 0)>>] >>,
+     rows |-> rows, idx |-> 7, shots |-> 8, script |-> Script("ok", 0)]
+FirstInit == \E rows \in {2, 3, 5} : st = InitSt(FirstCase(rows))
+
+InitQuick == FlowInit(0) \/ RingInit \/ IterInit \/ NextBigInit \/ FirstInit
+InitThorough == FlowInit(1) \/ RingInit \/ IterInit \/ NextBigInit \/ FirstInit
 InitFull  == FlowInit(2) \/ RingInit \/ IterInit
 InitSmall == (\E nsi \in {2, 6} : \E shs \in [1..Len(NameSeqs[nsi]) -> {Shape(1, 0, 0), Shape(2, 3, 4)}] :
                 \E f \in {1, 3} : \E sc \in ScriptsFor(StepsOf(shs)) : st = InitSt(FlowCase(f, nsi, shs, sc)))
